@@ -68,17 +68,22 @@ def tifa_analysis(code=None, report=None):
              and has_key(tifa_data(report), 'instance') and instance_of(at(tifa_data(report), 'instance'), Tifa)
              and distinct(tifa_data(report), at(tifa_data(report), 'analyses'), report._tool_data))
     requires(is_str(code))
+    requires(has_attr(report, 'submission') and implies(truthy(report.submission), is_obj(report.submission)
+             and is_dict(report.submission.line_offsets) and is_str(report.submission.main_file)
+             and distinct(report.submission.line_offsets, tifa_data(report), at(tifa_data(report), 'analyses'), report._tool_data)))
     abstract("report[TIFA_TOOL_NAME]['instance'].process_code", raises=None, label="process_code",
              modifies=[ghost('analysed'), attr_of_any('feedback_marker')],
              ensures=[ghost('analysed') == old(ghost('analysed')) + 1, is_obj(result)])
     let(cache=at(tifa_data(report), 'analyses'))
-    let(hit=has_key(cache, code))
+    let(shift=(get(report.submission.line_offsets, report.submission.main_file, 0) if truthy(report.submission) else 0))
+    let(key=(code, shift))
+    let(hit=has_key(cache, key))
     modifies(mapping(cache), mapping(tifa_data(report)), ghost('analysed'), attr_of_any('feedback_marker'))
     raises_nothing()
-    ensures("repeat_returns_the_same_object", implies(hit, result is old(at(cache, code))))
+    ensures("repeat_returns_the_same_object", implies(hit, result is old(at(cache, key))))
     ensures("repeat_runs_no_analysis", implies(hit, ghost('analysed') == old(ghost('analysed'))))
     ensures("repeat_leaves_the_cache_alone", implies(hit, forall_val(lambda k: at(cache, k) == old(at(cache, k)))
                                                      and eqv(at(tifa_data(report), 'latest'), old(at(tifa_data(report), 'latest')))))
     ensures("first_time_is_analysed_once_and_cached", implies(not hit, ghost('analysed') == old(ghost('analysed')) + 1
-                                                              and result is at(cache, code)
+                                                              and result is at(cache, key)
                                                               and at(tifa_data(report), 'latest') is result))
